@@ -4,3 +4,5 @@ import IrisVerif.Driver.C09
 import IrisVerif.Props.C11
 import IrisVerif.Driver.C11
 import IrisVerif.Model.QMat
+import IrisVerif.Props.C05
+import IrisVerif.Driver.C05
